@@ -185,6 +185,18 @@ def closestPos (fetch : Id → Option Event) (ml : List Id) : Nat → Option Eve
 def mainlineLe (a b : MKey) : Bool :=
   decide (a.depth < b.depth) || (a.depth == b.depth && (decide (a.ts < b.ts) || (a.ts == b.ts && decide (a.id ≤ b.id))))
 
+/-- The **mainline ordering** of `rest` based on the power-levels event `P` (`fuel` bounds the walks
+through the store; the store's size suffices). With `dev = true`: the same with the one documented
+deviation of the implementation (finding F4) — an event without mainline ancestor takes the
+position of the oldest mainline event instead of coming before every mainline position. -/
+def mainlineOrder (dev : Bool) (fetch : Id → Option Event) (fuel : Nat) (P : Option Event)
+    (rest : List Id) : List Id :=
+  let ml := mainline fetch fuel P
+  let keyed := rest.filterMap (fun id => (fetch id).map (fun e =>
+    let pos := closestPos fetch ml fuel (some e)
+    (id, (⟨if dev then max 1 pos else pos, e.originServerTs, id⟩ : MKey))))
+  (keyed.mergeSort (fun a b => mainlineLe a.2 b.2)).map (·.1)
+
 /-! ## Algorithm -/
 
 /-- The graph on `X` "formed by auth events", and each vertex's comparison key. -/
@@ -232,11 +244,7 @@ def resolveWith (dev : Bool) (p : Params) (store : List Event) (sets : List Stat
       -- 3. the remaining events in mainline ordering of the resolved power levels
       let rest := F.filter (fun id => !X.contains id)
       let P := (AL.get partial_ (tPowerLevels, [])).bind fetch
-      let ml := mainline fetch (store.length + 1) P
-      let keyed := rest.filterMap (fun id => (fetch id).map (fun e =>
-        let pos := closestPos fetch ml (store.length + 1) (some e)
-        (id, (⟨if dev then max 1 pos else pos, e.originServerTs, id⟩ : MKey))))
-      let sortedRest := (keyed.mergeSort (fun a b => mainlineLe a.2 b.2)).map (·.1)
+      let sortedRest := mainlineOrder dev fetch (store.length + 1) P rest
       -- 4. iterative auth checks on the partial state
       match iterativeAuthChecks p fetch sortedRest partial_ with
       | .error x => .error x
